@@ -1,5 +1,6 @@
 (* Model of pkg/camelcase: Split (camelcase.go:24-75) and makeCase (naming.go:40-65).
-   Definitions only.  The model follows the Go loops; [fixed = false] is the code as
+   Definitions only.  The model follows the Go loops; every index / slice expression of
+   Split is a checked operation (Panic when out of range); [fixed = false] is the code as
    it was before the "fix:" commit that guards the append in the first loop (kept so
    that the refutation of totality for the old code stays checkable). *)
 Require Import Gengo.Base.Bytes.
@@ -46,31 +47,50 @@ Section Split.
         else pass1 fixed rest ([r] :: groups) c
     end.
 
-  Definition hd_is (p : rune -> bool) (g : list rune) : bool :=
-    match g with a :: _ => p a | [] => false end.
   Definition r_upper (r : rune) : bool := class_eqb (cls r) CUpper.
   Definition r_lower (r : rune) : bool := class_eqb (cls r) CLower.
 
+  (* The slice accesses of the second loop, each CHECKED: Go panics ("index out of range" /
+     "slice bounds out of range") on an empty group, and so does the model. *)
+  Definition idx0 (g : list rune) : res rune :=            (* g[0] *)
+    match g with a :: _ => Ok a | [] => Panic end.
+  Definition idx_last (g : list rune) : res rune :=        (* g[len(g)-1] *)
+    match g with a :: _ => Ok (last g a) | [] => Panic end.
+  Definition slice_init (g : list rune) : res (list rune) := (* g[:len(g)-1] *)
+    match g with _ :: _ => Ok (removelast g) | [] => Panic end.
+
   (* second loop, camelcase.go:62-67: "PDFL","oader" -> "PDF","Loader".  [carry] is the rune
-     moved from the previous group to the front of this one.  Groups produced by the first
-     loop are non-empty, so runes[i][0] is in range; the model's hd_is is total. *)
-  Fixpoint pass2 (carry : list rune) (gs : list (list rune)) : list (list rune) :=
+     moved from the previous group to the front of this one, so  carry ++ g  is runes[i] as
+     iteration i sees it and  g2  is runes[i+1].  The condition is Go's short-circuit  && :
+     runes[i+1][0] is read only when runes[i][0] is upper case.  Nothing here assumes that a
+     group is non-empty: an empty one makes the access — and the whole function — Panic
+     (see pass2_empty_group_panics in Proofs/CamelCase.v); that it never happens for the
+     groups the first loop builds is a theorem, not a default. *)
+  Fixpoint pass2 (carry : list rune) (gs : list (list rune)) : res (list (list rune)) :=
     match gs with
-    | [] => []
+    | [] => Ok []
     | g :: tl =>
         let g' := carry ++ g in
         match tl with
-        | [] => [g']
+        | [] => Ok [g']
         | g2 :: _ =>
-            if hd_is r_upper g' && hd_is r_lower g2
-            then removelast g' :: pass2 (match g' with [] => [] | a :: _ => [last g' a] end) tl
-            else g' :: pass2 [] tl
+            let! a := idx0 g' in
+            let! move := (if r_upper a then let! b := idx0 g2 in Ok (r_lower b) else Ok false) in
+            if move
+            then let! l := idx_last g' in
+                 let! ini := slice_init g' in
+                 let! rest := pass2 [l] tl in
+                 Ok (ini :: rest)
+            else let! rest := pass2 [] tl in
+                 Ok (g' :: rest)
         end
     end.
 
   Definition split_runes (fixed : bool) (src : list rune) : res (list (list rune)) :=
     match pass1 fixed src [] COther with
-    | Ok groups => Ok (filter (fun g => negb (is_nil g)) (pass2 [] (rev groups)))
+    | Ok groups =>
+        let! gs2 := pass2 [] (rev groups) in
+        Ok (filter (fun g => negb (is_nil g)) gs2)
     | Panic => Panic
     | OutOfFuel => OutOfFuel
     end.
